@@ -30,6 +30,7 @@ func checkC09(c *Ctx) {
 	ruleParaRestStart(c)
 	ruleReaderDist(c)
 	ruleStartNonBlank(c)
+	ruleEdgeLine(c)
 }
 
 // readerCtor reports a call that builds an inlineByteReader from a node window and a position:
